@@ -1210,7 +1210,7 @@ package yqlib
 //@   assume @alias-targets-everywhere allnodes(m, implies(m.Alias != nil, m.Alias.Kind != AliasNode))
 //@   modifies anynode.Anchor, anynode.Kind, anynode.Style, anynode.Tag, anynode.Value, anynode.Alias, anynode.Content
 //@   ensures @no-anchor-left {C13} implies(result == nil, node.Anchor == "")
-//@   ensures @alias-becomes-its-target {C13} implies(old(node.Kind) == AliasNode && old(node.Alias) != nil && result == nil, node.Kind == old(node.Alias.Kind) && node.Kind != AliasNode && node.Value == old(node.Alias.Value) && node.Tag == old(node.Alias.Tag) && node.Style == old(node.Alias.Style) && node.Alias == nil)
+//@   ensures @alias-becomes-its-target {C13,C06} implies(old(node.Kind) == AliasNode && old(node.Alias) != nil && result == nil, node.Kind == old(node.Alias.Kind) && node.Kind != AliasNode && node.Value == old(node.Alias.Value) && node.Tag == old(node.Alias.Tag) && node.Style == old(node.Alias.Style) && node.Alias == nil)
 //@   ensures @alias-to-a-sequence-gets-its-elements {C13} implies(old(node.Kind) == AliasNode && old(node.Alias) != nil && result == nil && old(node.Alias.Kind) == SequenceNode, len(node.Content) == len(old(node.Content)) + len(old(node.Alias.Content)))
 //@   ensures @children-exploded {C13} implies(result == nil && old(node.Kind) == SequenceNode, node.Content == old(node.Content) && forall(i, 0, len(node.Content), exploded1(node.Content[i])))
 //@   ensures @copied-content-exploded {C13} implies(result == nil && old(node.Kind) == AliasNode && old(node.Alias) != nil && old(node.Alias.Kind) == SequenceNode, forall(i, 0, len(node.Content), exploded1(node.Content[i])))
